@@ -51,7 +51,14 @@ class List(Expression):
         LEN = Code('len')
         staging = out.var('staging', [])
 
-        with out.WHILE(True):
+        # Check the upper bound before each attempt, so that a bound that
+        # evaluates to zero at parse time matches nothing.
+        if self.max_len is None:
+            has_room = True
+        else:
+            has_room = LEN(staging) < Code(self.max_len)
+
+        with out.WHILE(has_room):
             if self.expr.can_partially_succeed():
                 checkpoint = out.var('checkpoint', POS)
 
@@ -61,10 +68,6 @@ class List(Expression):
                 out += BREAK
 
             out += staging.append(RESULT)
-
-            if self.max_len is not None:
-                with out.IF(LEN(staging) == Code(self.max_len)):
-                    out += BREAK
 
         if not self.min_len or self.min_len == '0':
             out += RESULT << staging
